@@ -127,6 +127,36 @@ def run(ctx):
         check_guarded(ctx, "is_kv_entry_with_write|true-only-for-write", b, trues,
                       [G_enum(r"KeyValueEntryLockData$", ["KVStoreWrite", "KVCollectionWrite"])], "`true` result")
 
+    ctx.rule("argument origin: the internal remove-and-close helper (which writes without re-checking the handle kind) is only given handles "
+             "obtained from the status-checking openers")
+    helper = sysfn(F, "key_value_entry_remove_and_close_substate")
+    if helper:
+        hc = who_calls(F, re.escape(helper) + "$")
+        ctx.floor("remove_and_close|callers", len(hc), 2)
+        for root in sorted(hc):
+            for b in ctx.bodies_of(root):
+                for bb, t in b.calls(re.escape(helper) + "$"):
+                    names = origin_names(b, t["args"][1])
+                    ok = bool(names) and all(re.search(r"^call:.*>::(actor_open_key_value_entry|key_value_store_open_entry)$", n) for n in names)
+                    ctx.ob(f"remove_and_close|handle-from-checked-opener|{root.rsplit('::',1)[1]}", ok,
+                           f"handle passed to key_value_entry_remove_and_close_substate originates from {sorted(n.split('::')[-1] for n in names)}", b.loc(bb))
+    else:
+        ctx.ob("anchor|key_value_entry_remove_and_close_substate", False, "helper not found")
+    # no second (unchecked) opener: every SystemService function that opens a substate with caller-supplied flags and returns the handle is one of the three openers
+    opens = who_calls(F, r"kernel_api::KernelSubstateApi(<[^>]*>)?(>)?::kernel_open_substate(_with_default)?$")
+    for root in sorted(opens):
+        if not (root.startswith("<" + SYS) or root.startswith(SYS)):
+            continue
+        name = root.rsplit("::", 1)[1]
+        if name in OPENERS or name.startswith("kernel_"):
+            continue
+        for b in ctx.bodies_of(root):
+            for bb, t in b.calls(r"kernel_open_substate(_with_default)?$"):
+                fl = origin_names(b, t["args"][4])
+                caller_flags = any(n.startswith("param:") for n in fl)
+                ctx.ob(f"opener-classified|{name}", not caller_flags,
+                       f"SystemService::{name} opens a substate with flags {sorted(fl)}" + (" supplied by its caller: a fourth opener needs the lock-status rule" if caller_flags else " (engine-chosen constant)"), b.loc(bb))
+
     ctx.rule("T4 (no bypass): kernel substate mutators are called directly only from the audited modules")
     callers = who_calls(F, r"kernel_api::KernelSubstateApi(<[^>]*>)?(>)?::kernel_(write_substate|set_substate|remove_substate|drain_substates)$")
     check_who_may(ctx, "who-calls-kernel-mutators", callers, {
